@@ -7,7 +7,7 @@
 (***************************************************************************)
 EXTENDS JudgeSat, CGFamilies
 
-Small == {x \in NoX(G1) : Len(x.fi[x.n]) <= 3}
+Small == {x \in NoX(G1(0)) : Len(x.fi[x.n]) <= 3}
 Assums(x) == {<<>>, << <<x.n, TRUE>> >>, << <<x.n, FALSE>> >>, << <<1, TRUE>>, <<x.n, FALSE>> >>}
 
 VARIABLES c, assum, blocked, count, done
